@@ -9,6 +9,9 @@ PROP = 'C10'
 CONFIGS = ('default', 'full-lexer', 'all-nodes', 'num-bigint')
 LAYOUTS = ['plain', 'comments', 'comments-crlf-tab', 'spread-comments']
 NUM_SIGMA = ['0', '1', '9', '_', '.', 'e', 'x', 'b', 'o', 'j', 'f', '-']
+# replacement fields whose expression text holds line breaks / comments: the f-string sub-parser runs its own lexer + token filter
+FIELD_NL = ["f'''{\na\n}'''", "f'''a {f(1,\n     2)} b'''", "f'''{a +\nb=}'''", "f'{a # c}'", "f'''{a # c\n}'''", "f'''{\n# c\na}'''", "f'''{a:{\nw\n}}'''", "f'''{(\na,\n)!r:>{w}}'''",
+            "x = (f'''{\na}''' 's'\n f'''{b\n}''')"]
 
 
 def erase_optional(default_tree, other):
@@ -49,6 +52,12 @@ def run_shard(args):
         for t, l in X.shard_strings(R.CHAR_SIGMA, n, shard):
             texts.append((t, 'exec', 'chars len=%d' % l))
             texts.append((t, 'eval', 'chars len=%d' % l))
+    elif kind == 'fstr':
+        texts = [(t, 'exec', 'f-string product') for t in K.fstring_product(args[1])] + [(t, m, 'f-string fields with line breaks/comments') for t in FIELD_NL for m in ('exec', 'eval')]
+    elif kind in ('layout', 'lex'):
+        _, n, shard = args
+        sigma = R.LAYOUT_LEX if kind == 'layout' else c01.LEX
+        texts = [(t, 'exec', '%s lexemes n=%d' % (kind, l)) for t, l in X.shard_strings(sigma, n, shard)]
     else:
         _, n, shard = args
         texts = [(t, 'eval', 'numbers len=%d' % l) for t, l in X.shard_strings(NUM_SIGMA, n, shard)]
@@ -102,6 +111,11 @@ def run(tier, seed):
     jobs = [('corpus', g, d) for g in K.group_shards(K.shards_for(d, 'file'), 400 if tier == 'thorough' else 64)]
     n = 3 if tier == 'quick' else 4
     jobs += [('chars', n, s) for s in X.prefix_shards(R.CHAR_SIGMA, n, 1 if tier == 'quick' else 2)]
+    jobs.append(('fstr', 2 if tier == 'quick' else 3))
+    ll = 4 if tier == 'quick' else 5
+    jobs += [('layout', ll, s) for s in X.prefix_shards(R.LAYOUT_LEX, ll, 1)]
+    lx = 2 if tier == 'quick' else 3
+    jobs += [('lex', lx, s) for s in X.prefix_shards(c01.LEX, lx, 1)]
     nn = 4 if tier == 'quick' else 5
     jobs += [('numbers', nn, s) for s in X.prefix_shards(NUM_SIGMA, nn, 1)]
     total = C.Result()
@@ -112,9 +126,10 @@ def run(tier, seed):
     total.states = len(allh)
     total.nontrivial = total.validated
     rule = ('texts: every G_ref sentence with <=%d non-default alternatives under layouts %s; every string of length<=%d over %r (module and expression mode); every string of '
-            'length<=%d over the number alphabet %r; each parsed by the four builds (and lexed by default/full-lexer): pairwise comparison with the default build (verbatim for '
+            'length<=%d over the number alphabet %r; the f-string concatenation product and fields with line breaks/comments; every concatenation of <=%d layout lexemes and <=%d lexemes of '
+            'the C01 lexeme alphabet; each parsed by the four builds (and lexed by default/full-lexer): pairwise comparison with the default build (verbatim for '
             'full-lexer and num-bigint, modulo ranges that are () in the default build for all-nodes; full-lexer tokens minus Comment/NonLogicalNewline == default tokens); '
-            'states = distinct (mode, text), transitions = pairwise comparisons' % (d, LAYOUTS, n, ''.join(R.CHAR_SIGMA), nn, ''.join(NUM_SIGMA)))
+            'states = distinct (mode, text), transitions = pairwise comparisons' % (d, LAYOUTS, n, ''.join(R.CHAR_SIGMA), nn, ''.join(NUM_SIGMA), ll, lx))
     return C.finish(PROP, tier, seed, t0, total, rule, ['self-relation between four builds of the same source tree; Debug rendering (integers print in decimal in both big-integer backends)'])
 
 
